@@ -208,6 +208,21 @@ def parse_run(r, fname, text):
     return res
 
 
+def run_mustfail(which, work, repo_dir, features=(), deps=None):
+    """Vacuity guard: the same crate with contracts/verus/mustfail_<crate>.rs appended; every zz_must_fail_* function has to be
+    rejected by Verus (and the rest of the crate is unchanged, so nothing else may fail either)."""
+    extra = open(os.path.join(common.VERIF, 'contracts/verus/mustfail_%s.rs' % which)).read()
+    names = re.findall(r'fn (zz_must_fail_\w+)', extra)
+    # the guard text goes before the final closing of the crate? No: the assembled crate is `verus! { ... }` + plain items, so a
+    # separate module with its own verus! block is appended after it
+    r = run_crate(which, work, repo_dir, features, deps=deps, extra_text=extra)
+    accepted = [n for n in names if any(k.endswith('::' + n) and v['success'] for k, v in r['functions'].items())]
+    seen = [n for n in names if any(k.endswith('::' + n) for k in r['functions'])]
+    others_failed = [k for k, v in r['functions'].items() if not v['success'] and not any(k.endswith('::' + n) for n in names)]
+    r['mustfail'] = {'names': names, 'accepted': accepted, 'seen': seen, 'others_failed': others_failed}
+    return r
+
+
 def run_bridge(work):
     prelude = open(os.path.join(common.VERIF, 'contracts/verus/prelude.rs')).read()
     preds = open(os.path.join(common.VERIF, 'contracts/leaf_preds.rs')).read()
